@@ -145,6 +145,8 @@ val zeq_bool : z -> z -> bool
 
 val nth : nat -> 'a1 list -> 'a1 -> 'a1
 
+val last : 'a1 list -> 'a1 -> 'a1
+
 val map : ('a1 -> 'a2) -> 'a1 list -> 'a2 list
 
 val flat_map : ('a1 -> 'a2 list) -> 'a1 list -> 'a2 list
@@ -288,6 +290,10 @@ type stmt =
 | SCumsum of var * var
 | SArrDiv of site * var * var * var
 | SArrDivSc of var * var * expr
+| SArrScale of var * expr
+| SShiftLeft of var
+| SColSums of var * var
+| SColUpd of site * var * expr * binop * var option * expr
 | SCall of nat * target list * char list * arg list
 | SSeq of stmt * stmt
 | SIf of nat * expr * stmt * stmt
@@ -426,6 +432,16 @@ val div_cells : sval list -> sval list -> sval list
 
 val coerce_cells : dtype -> sval list -> sval list
 
+val scale_cells : dtype -> sval -> sval list -> sval list
+
+val shift_left : sval list -> sval list
+
+val col_sums : dtype -> z -> z -> sval list -> sval list
+
+val col_upd :
+  dtype -> z -> z -> z -> sval list -> binop -> sval list option -> sval ->
+  sval list
+
 type store = (var * value) list
 
 val get : store -> var -> value
@@ -506,6 +522,8 @@ val k_jitunion_isets : func
 val k__jitfix_iset : func
 
 val k__jitcontinuous_perievent : func
+
+val k__jitperievent_trigger_average : func
 
 val k__cross_correlogram : func
 
